@@ -38,7 +38,9 @@ class Gen:
         if c < 0.45 and defined:
             return r.choice(sorted(defined))
         if c < 0.6:
-            return r.choice(["self.p", "self.q", "lst[0]", "lst[1]", "len(lst)", "self.arr[0]", "lst[a % 6]", "(a // b)", "tbl[b]", "(a % b)"])
+            return r.choice(["self.p", "self.q", "lst[0]", "lst[1]", "len(lst)", "self.arr[0]", "lst[a % 6]", "(a // b)", "tbl[b]", "(a % b)",
+                             "sum([q_ * 2 for q_ in lst[:3] if q_ != a])", "len([w_ for w_ in range(abs(b)) for v_ in range(2) if w_ + v_ != a])",
+                             "sum([k_ + a for k_ in [a, b, 1]])"])
         return str(r.randint(-3, 5))
 
     def expr(self, defined, depth=0):
@@ -95,6 +97,12 @@ class Gen:
                 out.append(r.choice(["self.p", "self.q", "lst[0]", "lst[1]", "self.arr[0]"]) + f" = {self.expr(defined)}")
             elif c < 0.5:
                 out.append(f"lst.append({self.expr(defined)})")
+            elif c < 0.52:
+                # a temporary that is only the iterable of a comprehension / of a loop
+                v, w = self.fresh(), self.fresh()
+                out.append(f"{v} = {r.choice(['lst[:2]', 'self.arr', '[a, b]', 'tbl'])}")
+                out.append(f"{w} = sum([e_ + {self.atom(defined)} for e_ in {v}])")
+                defined.add(w)
             elif c < 0.54:
                 # aliasing: a temporary that names a mutable object, then a mutation through it
                 v = self.fresh()
@@ -299,7 +307,10 @@ def main():
             folded += 1
         for _ in range(6):
             args = [rng.randint(-3, 4) for _ in range(4)]
-            r1, r2 = run(src, *args, prelude=prelude), run(can, *args, prelude=prelude)
+            try:
+                r1, r2 = run(src, *args, prelude=prelude), run(can, *args, prelude=prelude)
+            except ValueError:
+                break                   # integers too large to print: not a property of the rewriting
             if r1 != r2:
                 bad += 1
                 print("=" * 100, "\nMISMATCH on", args, "\n--- helpers\n" + prelude + "--- program\n" + src + "--- canonical\n" + can + "\n--- outcomes\n", r1, "\n", r2)
